@@ -226,8 +226,12 @@ static void mode_followfp() {
         s.deriv = ((c / 2) % 2) ? 3 : 4;            // both derivative stencils
         int fptrack = 1 + (int)((c / 4) % 2);       // approximation 1 / 2
         if (r.chance(0.5)) s.shifty = r.uni(-3, 3);
+        // scale: one case in eight on a mesh of more than 256 / 512 / 1024 rows, and with a whole ensemble moved in one call
+        const bool scale = ((c / 8) % 8 == 3);
+        if (scale) { static const uint32_t big_n[] = {300, 520, 1030}; s.n = big_n[r.range(0, 2)]; M.ev("scale_cases"); }
         const double d = s.pqsize / (s.n - 1);
         s.e1 = std::min(r.logu(2e-3, 3e-2), 0.25 * d * d);
+        if (scale) { s.fptype = 1; s.e1 = r.uni(0.2, 0.5) / (s.n / 2.0); }    // (fine mesh: damping only - no diffusion number to respect; the shift per step e1*|y-y0| stays below half a cell, the range the derivative stencil is meant for)
         M.begin_case(c, "followfp " + s.descr() + " fptrack=" + std::to_string(fptrack));
         vh::set_grid(s.n, 1);
         auto fill = filling_for(1);
@@ -267,6 +271,24 @@ static void mode_followfp() {
                 vh::J dj; dj.s("spec", s.descr()).i("fptrack", fptrack).n("x0", cx0).n("y0", cy0).n("zero_energy_bin", zb).n("blob_moved_by", dblob).n("particle_moved_by", dpart).n("particle_x_after", p.x);
                 M.violation("C15:follow:fokker_planck:track" + std::to_string(fptrack), "tracked particle does not move with the charge around it in the damping/diffusion step", dj.str());
                 break;
+            }
+        }
+        if (scale) {
+            // a whole ensemble in one applyToAll(): track i must end where applyTo() puts particle i (tracks are identified by their index)
+            const size_t np = (c % 16 < 8) ? 5000 : 70000;
+            std::fill(din, din + nn, 0.0f);
+            for (uint32_t x = 0; x < s.n; x++) for (uint32_t y = 0; y < s.n; y++)
+                din[(size_t)x * s.n + y] = (float)std::exp(-0.5 * (std::pow((x - s.n / 2.0) / (s.n / 8.0), 2) + std::pow((y - zb) / (s.n / 8.0), 2)));
+            std::vector<PhaseSpace::Position> all(np), one(np);
+            for (size_t k = 0; k < np; k++) { all[k] = {(float)r.uni(1, s.n - 2), (float)r.uni(1, s.n - 2)}; one[k] = all[k]; }
+            fpm.applyToAll(all);
+            long moved_col = 0, differ = 0;
+            for (size_t k = 0; k < np; k++) { fpm.applyTo(one[k]); if (all[k].x != one[k].x) moved_col++; if (!vh::bits_equal(all[k].y, one[k].y) || all[k].x != one[k].x) differ++; }
+            M.ev("ensembles_moved_in_one_call");
+            M.ev("ensemble_tracks_compared", (long)np);
+            if (differ) {
+                vh::J dj; dj.s("spec", s.descr()).i("fptrack", fptrack).i("particles", (long)np).i("tracks_that_differ", differ).i("tracks_in_another_column", moved_col);
+                M.violation("C15:follow:fokker_planck:ensemble_order", "moving an ensemble in one call does not move track i like particle i on its own", dj.str());
             }
         }
         M.sig(vh::hmix(vh::hmix(77 + fptrack, s.n * 8 + s.deriv), (uint64_t)(int64_t)(s.e1 * 1e12) ^ (uint64_t)c));
